@@ -171,6 +171,12 @@ func drawSpec(t *rapid.T, label string, kinds []string, authors []string) mwSpec
 		s.N = rapid.IntRange(1, 8).Draw(t, label+"n")
 		if k == "maxsubs" {
 			s.N = rapid.IntRange(1, 4).Draw(t, label+"n")
+		} else if rapid.IntRange(0, 5).Draw(t, label+"large") == 0 {
+			// limits far from the small ones: every configured value is enforced as it is
+			s.N = rapid.SampledFrom(map[string][]int{
+				"maxsubid": {63, 64, 65, 100, 1000}, "maxcontent": {255, 256, 1024, 65536}, "maxtags": {64, 100, 256},
+				"maxfilters": {64, 100}, "maxlimit": {500, 5000, 65536, 1 << 31},
+			}[k]).Draw(t, label+"nlarge")
 		}
 	case "lower", "upper":
 		s.From = rapid.OneOf(rapid.Int64Range(10, 100000), rapid.Int64Range(10, 100), rapid.Just(int64(1000000000))).Draw(t, label+"secs")
